@@ -406,9 +406,9 @@ def _r12_4(prog: Program, res: Result) -> None:
     from ..model import last_return
     last = last_return(fn4.node) or fn4.node
     texts = [norm(x).replace("_isinstance_cache(", "isinstance(") for x in walk_own(fn4.node) if isinstance(x, (ast.If, ast.Return))]
-    eq_branch = any(f"{node_p} == {tmpl_p}" in t for t in texts) and isinstance(last, ast.Return) and norm(last.value) == "()"
+    eq_branch = any(f"{node_p} == {tmpl_p}" in t or f"{tmpl_p} == {node_p}" in t for t in texts) and isinstance(last, ast.Return) and norm(last.value) == "()"
     res.decide(eq_branch, "R12.4", fn4.loc(last), fn4.fq, "leaf values", "compared by equality, default is no match" if eq_branch else "leaf comparison / default no-match changed")
-    const_branch = any(f"{node_p} is {tmpl_p}" in t for t in texts)
+    const_branch = any(f"{node_p} is {tmpl_p}" in t or f"{tmpl_p} is {node_p}" in t for t in texts)
     res.decide(const_branch, "R12.4", fn4.loc(), fn4.fq, "True/False/None templates", "matched by identity (1 does not match True)" if const_branch else "singleton templates no longer matched by identity")
     # _match_wildcard binds the node matched by the wildcard's own template
     fn5 = prog.func("core", "_match_wildcard")
